@@ -118,6 +118,7 @@ def scenario(D, shape, kw, boundary, S):
     op_in = sh3.portf.setup_optim_problem(sh3.prices, sh3.tg)
     start_future = shapes.tstep(sh3.tg, boundary)
     slp = eao.stoch_lin_prog.make_slp(op_in, sh3.portf, sh3.tg, start_future, [dict(s) for s in samples])
+    scenario.last_shape = sh3          # the portfolio object the SLP was built from (for output extraction, C04)
     return sh, op_base, scen_ops, slp
 
 
